@@ -128,14 +128,23 @@ TIterBulk ==
     /\ viol' = viol \cup V(E.write_ok => (E.yielded = E.n /\ E.saw_deleted /\ ~E.saw_new /\ E.ordered), "IterSnapshotBulk")
     /\ UNCHANGED <<kv, its>>
 
+\* a batch of more operations than an engine may take in one transaction, alone and with a condition that fails: all of it
+\* or nothing, whatever the engine answered; with the failing condition: refused
+TBigBatch ==
+    /\ Is("SBigBatch") /\ l' = l + 1
+    /\ viol' = viol \cup V(E.scan_ok => (/\ (E.res = "ok" => E.visible = E.n) /\ (E.res # "ok" => E.visible = 0)
+                                          /\ (E.with_failing_condition => E.res # "ok")), "BigBatchAllOrNothing")
+    /\ UNCHANGED <<kv, its>>
+
 \* a lookup that ran next to the two commits panicked or returned a value the key never had
 TRaceRead == /\ Is("SRaceRead") /\ l' = l + 1 /\ viol' = viol \cup V(FALSE, "ReadsDuringBatches") /\ UNCHANGED <<kv, its>>
 
-TNext == TRaceRead \/ TIterBulk \/ TRace \/ TReset \/ TCommit \/ TGet \/ TDel \/ TIterOpen \/ TIterNext \/ TIterDrain \/ TDelCur
+TNext == TRaceRead \/ TBigBatch \/ TIterBulk \/ TRace \/ TReset \/ TCommit \/ TGet \/ TDel \/ TIterOpen \/ TIterNext \/ TIterDrain \/ TDelCur
 TSpec == TInit /\ [][TNext]_vars
 TraceAccepted == TLCGet("stats").diameter - 1 = Len(Trace)
 NoViol(name) == \A v \in viol : v[1] # name
 M_ConditionExactly   == NoViol("ConditionExactly")
+M_BigBatchAllOrNothing == NoViol("BigBatchAllOrNothing")
 M_BatchesSerializable == NoViol("BatchesSerializable")
 M_ReadsDuringBatches == NoViol("ReadsDuringBatches")
 M_IterSnapshotBulk == NoViol("IterSnapshotBulk")
